@@ -114,7 +114,7 @@ func (sto *unionStorage) StatBlobs(ctx context.Context, blobs []blob.Ref, f func
 	}
 	// need to dedup the blobs
 	maybeDup := make(chan blob.SizedRef)
-	errCh := make(chan error, 1)
+	errCh := make(chan error, len(sto.subsets)) // every subset may fail
 	var wg sync.WaitGroup
 	var any bool
 	for _, s := range sto.subsets {
@@ -146,7 +146,13 @@ func (sto *unionStorage) StatBlobs(ctx context.Context, blobs []blob.Ref, f func
 		case <-ctx.Done():
 			return ctx.Err()
 		case err := <-errCh:
-			closeChanOnce.Do(func() { close(maybeDup) })
+			// The other subsets may still be sending: the channel
+			// can't be closed under them (they would panic). Drain
+			// it until they are done instead.
+			go func() {
+				for range maybeDup {
+				}
+			}()
 			return err
 		case sr, ok := <-maybeDup:
 			if !ok {
